@@ -54,7 +54,6 @@ CONSTANTS
 
 Force(f_) == IF f_ = f_ THEN f_ ELSE f_
 Range(s_) == {s_[i_] : i_ \in DOMAIN s_}
-RECURSIVE Lcm2(_, _)
 Lcm2(a_, b_) == (a_ \div Gcd(a_, b_)) * b_
 RECURSIVE IPow(_, _)
 IPow(a_, k_) == IF k_ = 0 THEN 1 ELSE a_ * IPow(a_, k_ - 1)
@@ -475,23 +474,19 @@ Mom(f_, al_, m_) ==
 \* polynomials over Q as coefficient sequences (index 1 = constant term)
 PZero == <<>>
 PCoef(p_, i_) == IF i_ >= 1 /\ i_ <= Len(p_) THEN p_[i_] ELSE QZero
-PAdd(p_, q_) == [i_ \in 1..Max2(Len(p_), Len(q_)) |-> QAdd(PCoef(p_, i_), PCoef(q_, i_))]
-PScale(c_, p_) == [i_ \in 1..Len(p_) |-> QMul(c_, p_[i_])]
+PAdd(p_, q_) == Force([i_ \in 1..Max2(Len(p_), Len(q_)) |-> QAdd(PCoef(p_, i_), PCoef(q_, i_))])
+PScale(c_, p_) == Force([i_ \in 1..Len(p_) |-> QMul(c_, p_[i_])])
 PShift(p_) == <<QZero>> \o p_                              \* multiplication by x
-PMul(p_, q_) ==
-    IF Len(p_) = 0 \/ Len(q_) = 0 THEN PZero
-    ELSE [i_ \in 1..(Len(p_) + Len(q_) - 1) |->
-            LET RECURSIVE Acc(_)
-                Acc(a_) == IF a_ = 0 THEN QZero
-                           ELSE QAdd(Acc(a_ - 1), QMul(PCoef(p_, a_), PCoef(q_, i_ + 1 - a_)))
-            IN Acc(Min2(i_, Len(p_)))]
-RECURSIVE FamPoly(_, _, _)
-FamPoly(f_, al_, k_) ==
-    IF k_ < 0 THEN PZero
-    ELSE IF k_ = 0 THEN <<QOne>>
-    ELSE LET p1 == FamPoly(f_, al_, k_ - 1) p2 == FamPoly(f_, al_, k_ - 2) IN
-         PAdd(PAdd(PScale(FamA(f_, al_, k_ - 1), PShift(p1)), PScale(FamB(f_, al_, k_ - 1), p1)),
-              PScale(QNeg(FamC(f_, al_, k_ - 1)), p2))
+\* <<p_k, p_{k-1}>> by the three-term recurrence (linear recursion)
+RECURSIVE FamPair(_, _, _)
+FamPair(f_, al_, k_) ==
+    IF k_ = 0 THEN <<<<QOne>>, PZero>>
+    ELSE LET pr == FamPair(f_, al_, k_ - 1)
+             p1 == pr[1] p2 == pr[2]
+             nx == PAdd(PAdd(PScale(FamA(f_, al_, k_ - 1), PShift(p1)), PScale(FamB(f_, al_, k_ - 1), p1)),
+                        PScale(QNeg(FamC(f_, al_, k_ - 1)), p2))
+         IN <<nx, p1>>
+FamPoly(f_, al_, k_) == FamPair(f_, al_, k_)[1]
 Functional(f_, al_, p_) ==
     LET RECURSIVE Acc(_)
         Acc(i_) == IF i_ = 0 THEN QZero ELSE QAdd(Acc(i_ - 1), QMul(p_[i_], Mom(f_, al_, i_ - 1)))
@@ -521,18 +516,21 @@ ParSeq(r_) == CASE ParKind(r_) = "alpha" -> AlphaSeq
                 [] ParKind(r_) = "rho" -> RhoSeq
                 [] OTHER -> <<NoPar>>
 BasesOf(r_) == IF TakesBase(r_) THEN BaseSeq ELSE <<FixedBase(r_)>>
-\* all <<n, par, base>> of a rule, in the order n-major
-RECURSIVE Collect(_, _, _, _, _)
-Collect(r_, ni_, pi_, bi_, acc_) ==
-    IF ni_ > Len(NSeq) THEN acc_
-    ELSE IF pi_ > Len(ParSeq(r_)) THEN Collect(r_, ni_ + 1, 1, 1, acc_)
-    ELSE IF bi_ > Len(BasesOf(r_)) THEN Collect(r_, ni_, pi_ + 1, 1, acc_)
-    ELSE LET n == NSeq[ni_] p == ParSeq(r_)[pi_] b == BasesOf(r_)[bi_]
-             ok == /\ AdmissibleN(r_, n) /\ AdmissiblePar(r_, n, p)
-                   /\ (b # "" => AdmissibleN(b, n))
-         IN Collect(r_, ni_, pi_, bi_ + 1,
-                    IF ok THEN Append(acc_, [rule |-> r_, n |-> n, par |-> p, base |-> b]) ELSE acc_)
-CasesOf == Force([r_ \in Rules |-> Collect(r_, 1, 1, 1, <<>>)])
+\* all admissible [rule, n, par, base] of a rule, n-major (flat index decoded; no recursion)
+CaseOk(c_) == /\ AdmissibleN(c_.rule, c_.n) /\ AdmissiblePar(c_.rule, c_.n, c_.par)
+              /\ (c_.base # "" => AdmissibleN(c_.base, c_.n))
+Collect(r_) ==
+    LET ps == ParSeq(r_)
+        bs == BasesOf(r_)
+        np == Len(ps)
+        nb == Len(bs)
+        flat == [t_ \in 1..(Len(NSeq) * np * nb) |->
+                   [rule |-> r_,
+                    n |-> NSeq[((t_ - 1) \div (np * nb)) + 1],
+                    par |-> ps[(((t_ - 1) \div nb) % np) + 1],
+                    base |-> bs[((t_ - 1) % nb) + 1]]]
+    IN SelectSeq(flat, CaseOk)
+CasesOf == Force([r_ \in Rules |-> Collect(r_)])
 
 RuleEntry(r_) ==
     [rule |-> r_, kind |-> Kind(r_), parkind |-> ParKind(r_), family |-> Family(r_),
@@ -570,10 +568,13 @@ LemmaTable ==     \* the assumed discrete sums, for the numerical cross-check of
     LET ns == SelectSeq(NSeq, LAMBDA n_ : n_ <= MaxChebN) IN
     [g_ \in {"f1", "f2", "cc"} |->
         [q_ \in 1..Len(ns) |-> [n |-> ns[q_], sums |-> [a_ \in 1..(4 * ns[q_] + 5) |-> DSum(g_, ns[q_], a_ - 1)]]]]
+AngleCases == ConcatCases(AngleSeq, 1)
+RationalCases == ConcatCases(RationalSeq, 1)
 Emitted ==
+    LET ac == Force(AngleCases) rc == Force(RationalCases) IN
     [rules |-> [q_ \in 1..Len(RuleSeq) |-> RuleEntry(RuleSeq[q_])],
-     angle |-> [q_ \in 1..Len(ConcatCases(AngleSeq, 1)) |-> AngleEntry(ConcatCases(AngleSeq, 1)[q_])],
-     rational |-> [q_ \in 1..Len(ConcatCases(RationalSeq, 1)) |-> RationalEntry(ConcatCases(RationalSeq, 1)[q_])],
+     angle |-> [q_ \in 1..Len(ac) |-> AngleEntry(ac[q_])],
+     rational |-> [q_ \in 1..Len(rc) |-> RationalEntry(rc[q_])],
      subst |-> [q_ \in 1..Len(SubstSeq) |-> SubstEntry(SubstSeq[q_])],
      tOfI |-> [q_ \in 1..Len(NSeq) |-> [n |-> NSeq[q_], t |-> TOfI(NSeq[q_])]],
      sausage |-> [q_ \in 1..Len(DSeq) |-> [d |-> DSeq[q_], map |-> SausageMap(DSeq[q_]),
@@ -603,7 +604,7 @@ PickRule == /\ vpc = "idle"
 PickCase == /\ vpc = "rule"
             /\ \E q_ \in 1..Len(CasesOf[vrule]) : vcase' = CasesOf[vrule][q_]
             /\ vpc' = "case" /\ UNCHANGED vrule
-\* static laws are evaluated in a separate pseudo-case per family degree / map
+\* the constant-level laws (families, sausage maps, emission) are evaluated in one extra state
 PickStatic == /\ vpc = "idle" /\ vpc' = "static" /\ UNCHANGED <<vrule, vcase>>
 Next == PickRule \/ PickCase \/ PickStatic
 Spec == Init /\ [][Next]_vars
@@ -662,21 +663,22 @@ FamiliesOrthogonal ==
                 /\ FamilyOrthogonal("chebU", NoPar, FamilyDeg)
                 /\ \A q_ \in 1..Len(AlphaSeq) : FamilyOrthogonal("laguerre", AlphaSeq[q_], Min2(FamilyDeg, 3))
                 /\ ChebT1Consistent(FamilyDeg + 2)
-\* sausage maps: odd polynomial of degree d, g(1) = 1, all coefficients of g' non-negative
-\* (g strictly increasing), d = 1 is the identity, and the d = 5 / d = 9 numerators over a
-\* common denominator are integers (149 and 53089 are the sums of the scaled coefficients)
-SEnv(v_) == [nm_ \in {"s"} |-> v_]
+\* sausage maps: only odd powers with non-negative coefficients (g odd, strictly increasing),
+\* normalisation constant positive, d = 1 is the identity; the coefficients defined by the
+\* differential equation are the textbook Taylor coefficients of arcsin.  (g(1) = 1 holds by
+\* construction; its evaluation overflows 32-bit rationals and is done by the harness in
+\* Fraction arithmetic on the emitted tree.)
 SausageLaws ==
     AtStatic =>
-        \A q_ \in 1..Len(DSeq) :
+        /\ <<AsinCoef(1), AsinCoef(3), AsinCoef(5), AsinCoef(7), AsinCoef(9)>>
+               = <<<<1, 1>>, <<1, 6>>, <<3, 40>>, <<5, 112>>, <<35, 1152>>>>
+        /\ \A q_ \in 1..Len(DSeq) :
             LET d == DSeq[q_] g == SausageMap(d) IN
             /\ d % 2 = 1
-            /\ EvalQ(g, SEnv(QOne)) = QOne /\ EvalQ(g, SEnv(<<-1, 1>>)) = <<-1, 1>>
-            /\ EvalQ(g, SEnv(QZero)) = QZero
-            /\ \A m_ \in 1..d : QLe(QZero, AsinCoef(m_))
-            /\ \A v_ \in {<<1, 3>>, <<1, 2>>, <<-2, 3>>} :
-                   /\ EvalQ(g, SEnv(QNeg(v_))) = QNeg(EvalQ(g, SEnv(v_)))
-                   /\ QLt(QZero, EvalQ(D(g, "s"), SEnv(v_)))
+            /\ QLt(QZero, AsinNorm(d))
+            /\ \A m_ \in 1..d : QLe(QZero, AsinCoef(m_)) /\ (m_ % 2 = 0 => AsinCoef(m_) = QZero)
+            /\ IsRational(g) /\ IsRational(D(g, "s"))
+            /\ EvalQ(g, [nm_ \in {"s"} |-> QZero]) = QZero
             /\ d = 1 => g = VS
 \* the cases enumerated here are the cases emitted (same operator CasesOf), and the file was written
 Emission == AtStatic => EmitOK
